@@ -28,7 +28,7 @@ from common import *  # noqa
 
 PROP = "C10"
 TABLES = ["C10_DisplayMappings"]
-MODELS = [("c10", "Extract/ExC10.v", "run_C10w")]
+MODELS = [("c10", "Extract/ExC10.v", "run_C10pr")]
 
 sys.path.insert(0, os.path.join(VERIF, "gen"))
 
@@ -154,12 +154,16 @@ def rec_output_class():
                 super().__init__(*a, **k)
                 self.log = []
 
+            def _caller(self):
+                f = sys._getframe(2)
+                return os.path.basename(f.f_code.co_filename) + ":" + f.f_code.co_name
+
             def write_raw(self, data):
-                self.log.append((1, data))
+                self.log.append((1, data, self._caller()))
                 super().write_raw(data)
 
             def write(self, data):
-                self.log.append((0, data))
+                self.log.append((0, data, self._caller()))
                 super().write(data)
         _REC["cls"] = RecOutput
     return _REC["cls"]
@@ -240,11 +244,13 @@ def impl_pipeline(case, env=None):
         for c in allcells:
             info["styles"].add(c.style)
         toks = []
-        for kind, text in out.log:
+        for kind, text, caller in out.log:
+            # origin by CALLER, not by what the text looks like: cursor moves write CR/LF, Vt100_Output's own
+            # primitives write_raw their sequences, _output_screen_diff itself passes zero-width escapes raw
             if kind == 0:
-                origin = 1 if REND_WRITE.match(text) else 0
+                origin = 1 if caller == "renderer.py:move_cursor" else 0
             else:
-                origin = 2 if (text in zwe_texts and not REND_RAW.match(text)) else 1
+                origin = 1 if caller.startswith("vt100.py:") else 2
             toks.append([origin, kind, S(text)])
         result.append([rect, zwe, screen.height, toks, [pos.x, pos.y, [S(last)] if last is not None else [], 0]])
         info["steps"].append({"cells": [(c.char, c.style) for c in allcells], "zwe_texts": zwe_texts,
@@ -375,6 +381,51 @@ def impl_print_formatted(frags):
     return out.log, sio.getvalue()
 
 
+def impl_print_tokens(case, env):
+    """kind 11: print_formatted_text on a recording output -> (tokens, info)."""
+    from prompt_toolkit.renderer import print_formatted_text
+    from prompt_toolkit.styles import default_ui_style
+    frags = frags_of(case[2])
+    out, sio = new_output(rec_output_class())
+    print_formatted_text(out, list(frags), default_ui_style())
+    toks = [[0 if kind == 0 else (1 if caller.startswith("vt100.py:") else 2), kind, S(text)] for kind, text, caller in out.log]
+    return toks, {"out": out, "styles": set(st for st, _t in frags), "bytes": sio.getvalue(), "log": list(out.log)}
+
+
+def impl_readline_like(displays, metas=None):
+    """A real PromptSession(complete_style=READLINE_LIKE) on a pipe input: type 'x', TAB -> the completions are
+    listed ABOVE the prompt by _display_completions_like_readline (a background task that prints with
+    app.print_text), then Enter.  Runs the event loop; the caller adds the watchdog.  -> (result, bytes, log)"""
+    async def go():
+        from prompt_toolkit import PromptSession
+        from prompt_toolkit.application.current import create_app_session
+        from prompt_toolkit.completion import Completer, Completion
+        from prompt_toolkit.data_structures import Size
+        from prompt_toolkit.input import create_pipe_input
+        from prompt_toolkit.shortcuts import CompleteStyle
+
+        class C(Completer):
+            def get_completions(self, doc, ev):
+                for i, d in enumerate(displays):
+                    yield Completion("x%d" % i, start_position=-1, display=d)
+        with create_pipe_input() as inp:
+            sio = io.StringIO()
+            out = rec_output_class()(sio, lambda: Size(rows=12, columns=70), term="xterm")
+            with create_app_session(input=inp, output=out):
+                s = PromptSession(message="> ", completer=C(), complete_style=CompleteStyle.READLINE_LIKE)
+                task = asyncio.ensure_future(s.prompt_async())
+                inp.send_text("x\t")
+                for _ in range(150):
+                    await asyncio.sleep(0.02)
+                    if any(c == "renderer.py:print_formatted_text" for _k, _t, c in out.log) and not s.app._running_in_terminal:
+                        break
+                await asyncio.sleep(0.05)
+                inp.send_text("\r")
+                r = await asyncio.wait_for(task, 5)
+                return r, sio.getvalue(), list(out.log)
+    return asyncio.run(go())
+
+
 class E2E:
     """A real PromptSession, rendered without running the event loop."""
 
@@ -398,19 +449,34 @@ class E2E:
                 sio = BinStdout(spec["enc"]) if spec.get("enc") else io.StringIO()
                 out = rec_output_class()(sio, lambda: Size(rows=spec["rows"], columns=spec["cols"]), term="xterm")
                 with create_app_session(input=inp, output=out):
+                    from prompt_toolkit.shortcuts import CompleteStyle
+                    mode = spec.get("mode", "")
                     s = PromptSession(message=spec["message"], bottom_toolbar=spec["toolbar"], completer=C(),
-                                      complete_while_typing=False, multiline=spec.get("multiline", False))
+                                      complete_while_typing=False, multiline=spec.get("multiline", False),
+                                      complete_style=CompleteStyle.MULTI_COLUMN if mode == "multi_column" else CompleteStyle.COLUMN,
+                                      vi_mode=(mode == "multicursor"), rprompt=spec["toolbar"] if mode == "rprompt" else None)
                     app = s.app
                     b = s.default_buffer
                     b.reset(Document(spec["buffer"]))
                     with set_app(app):
                         app.renderer.report_absolute_cursor_row(1)     # height known: the toolbar is drawn
+                        if mode == "arg":                # ShowArg / "(arg: n)" prompt
+                            app.key_processor.arg = "5"
+                        elif mode == "multicursor":      # DisplayMultipleCursors
+                            from prompt_toolkit.key_binding.vi_state import InputMode
+                            app.vi_state.input_mode = InputMode.INSERT_MULTIPLE
+                            b.multiple_cursor_positions = [0, max(0, len(b.text) - 1)]
+                        elif mode == "search":           # search toolbar + HighlightIncrementalSearchProcessor
+                            from prompt_toolkit.search import SearchDirection, start_search
+                            start_search(direction=SearchDirection.BACKWARD)
+                            s.search_buffer.reset(Document(spec["buffer"][:3]))
                         for phase in (0, 1, 2):
                             if phase == 1:
                                 b.complete_state = CompletionState(b.document, list(C().get_completions(b.document, None)))
                             app.renderer.render(app, app.layout, is_done=(phase == 2))
                             scr = app.renderer._last_screen if phase < 2 else None
                             if scr is not None:
+                                res.setdefault("controls", set()).update(type(w.content).__name__ for w in scr.visible_windows)
                                 res["cells"] += [(c.char, c.style) for r in scr.data_buffer.values() for c in r.values()]
                                 res["zwe"] += [t for r in scr.zero_width_escapes.values() for t in r.values()]
                         for t in list(app._background_tasks):
@@ -478,25 +544,65 @@ def oracle_char(ch, st, res):
     if not control_free(disp):
         return ("cell text for U+%04X contains a control character: %r" % (c, disp), "cell-control")
     if is_control(c):
-        if not NOTATION.match(disp):
-            return ("control character U+%04X is not shown in caret or hex notation: %r" % (c, disp), "notation")
+        want = "^" + chr(c ^ 0x40) if c < 0x80 else "<%02x>" % c
+        if not NOTATION.match(disp) or disp != want:
+            return ("control character U+%04X is not shown in its caret or hex notation %r: %r" % (c, want, disp), "notation")
         if width <= 0:
             return ("display %r of control character U+%04X has width %d (not visible)" % (disp, c, width), "notation")
     return None
 
 
-def oracle_log(log, zwe_texts, what):
-    """Every write(..) is cell text (control-free) or the renderer's CR / CRLF;
-    every write_raw(..) is from the renderer's repertoire or an explicitly
-    marked zero-width escape."""
-    for kind, text in log:
+WRITE_RENDERER_CALLERS = {"renderer.py:move_cursor"}
+WRITE_LITERAL_CALLERS = {"application.py:in_terminal": re.compile(r"WARNING: [ -~]*\r\n\Z"),
+                         "prompt.py:_dumb_prompt": None, "prompt.py:on_text_changed": None}
+
+
+def oracle_log(log, zwe_texts, what, marked=()):
+    """Judged by the CALLER of write / write_raw (a payload that merely looks
+    like a renderer sequence does not pass): cursor moves may write CR / CRLF;
+    any other write is displayed text and must be control-free; Vt100_Output's
+    own primitives write_raw sequences of the repertoire; any other write_raw
+    must be exactly a stored zero-width escape (screen path) or the text of a
+    marked fragment (print path)."""
+    for kind, text, caller in log:
         if kind == 0:
-            if not control_free(text) and not REND_WRITE.match(text):
-                return ("%s: write(%r) carries a control character that is not the renderer's own CR/LF" % (what, text), "write-control")
+            if caller in WRITE_RENDERER_CALLERS:
+                if not REND_WRITE.match(text):
+                    return ("%s: %s wrote %r, expected CR or CRLFs" % (what, caller, text), "write-control")
+            elif caller == "renderer.py:print_formatted_text":
+                if "\x1b" in text:
+                    pass        # write() replaces it; checked on the bytes by the print oracle
+            elif not control_free(text):
+                rx = WRITE_LITERAL_CALLERS.get(caller)
+                if caller in WRITE_LITERAL_CALLERS and (rx is None or rx.match(text)) and all(ch in "\r\n" or not is_control(ord(ch)) for ch in text):
+                    continue
+                return ("%s: write(%r) from %s carries a control character" % (what, text, caller), "write-control")
         else:
-            if not REND_RAW.match(text) and text not in zwe_texts:
-                return ("%s: write_raw(%r) is neither a renderer sequence nor a marked zero-width escape" % (what, text), "raw")
+            if caller.startswith("vt100.py:"):
+                if not REND_RAW.match(text) and text != "\x07":
+                    return ("%s: Vt100_Output.%s sent %r, not a sequence of its repertoire" % (what, caller.split(":")[1], text), "raw")
+            elif caller == "renderer.py:print_formatted_text":
+                if text not in marked:
+                    return ("%s: print_formatted_text passed %r through write_raw, which was not marked [ZeroWidthEscape]" % (what, text), "raw")
+            elif text not in zwe_texts:
+                return ("%s: write_raw(%r) from %s is not a stored zero-width escape" % (what, text, caller), "raw")
     return None
+
+
+def segmentable(z, wholes, allow_suffix):
+    """z is an in-order concatenation of whole texts from `wholes` (with
+    horizontal scrolling: also suffixes of them, the front may be scrolled off)."""
+    pieces = set(w for w in wholes if w)
+    if allow_suffix:
+        pieces |= set(w[i:] for w in wholes for i in range(1, len(w)))
+    ok = [False] * (len(z) + 1)
+    ok[0] = True
+    for i in range(len(z)):
+        if ok[i]:
+            for pc in pieces:
+                if z.startswith(pc, i):
+                    ok[i + len(pc)] = True
+    return ok[len(z)]
 
 
 def oracle_stream(data, zwe_texts, what):
@@ -522,26 +628,19 @@ def oracle_cells(cells, what):
 
 
 def oracle_pipeline(case, info):
-    marked = set()
-    for lines_sx, _a, _p in case[5]:
-        for l in lines_sx:
-            for st, tx in l:
-                if "[ZeroWidthEscape]" in unS(st):
-                    marked.add(unS(tx))
-    for pf in case[4]:
-        for st, tx in pf:
-            if "[ZeroWidthEscape]" in unS(st):
-                marked.add(unS(tx))
-    allmarked = "".join(sorted(marked))
+    pmarked = [unS(tx) for pf in case[4] for st, tx in pf if "[ZeroWidthEscape]" in unS(st)]
+    hscroll = case[3][5] != 0
     for k, stp in enumerate(info["steps"]):
         w = "render %d" % k
+        marked = pmarked + [unS(tx) for l in case[5][k][0] for st, tx in l if "[ZeroWidthEscape]" in unS(st)]
         bad = oracle_cells(stp["cells"], w)
         if bad:
             return bad
         for z in stp["zwe_texts"]:
-            # only explicitly marked text may be stored as a zero-width escape
-            if any(ch not in allmarked for ch in z):
-                return ("%s: zero_width_escapes holds %r, which was not marked [ZeroWidthEscape]" % (w, z), "zwe-unmarked")
+            # only explicitly marked text, whole and in order, may be stored as a zero-width escape
+            if not segmentable(z, marked, hscroll):
+                return ("%s: zero_width_escapes holds %r, which is not a concatenation of texts marked [ZeroWidthEscape] (%r)"
+                        % (w, z, marked), "zwe-unmarked")
         bad = oracle_log(stp["log"], stp["zwe_texts"], w) or oracle_stream(stp["bytes"], stp["zwe_texts"], w)
         if bad:
             return bad
@@ -636,12 +735,12 @@ def gen_pipeline_cases(chk):
     for _ in range(30000 if thorough else 1200):
         width = rng.randint(1, 12)
         height = rng.randint(1, 4)
-        xpos, ypos = rng.choice([0, 0, 1, 2]), rng.choice([0, 0, 1])
+        xpos, ypos = rng.choice([0, 0, 1, 2, -1, -2]), rng.choice([0, 0, 1])     # negative xpos: a float with a negative `left`
         wrapf = rng.randint(0, 1)
         cf = [width, height, xpos, ypos, wrapf,
               0 if (wrapf or rng.random() < 0.6) else rng.choice([1, 1, 2, 3, 5, 20]), rng.choice([0, 0, 0, 1, 2])]
         pf = [] if rng.random() < 0.6 else [rand_frags(rng, 2, 2), rand_frags(rng, 2, 2)]
-        cols = xpos + width + rng.choice([0, 0, 1, 3])
+        cols = max(1, xpos + width + rng.choice([0, 0, 1, 3]))
         rows = ypos + height + rng.choice([0, 0, 1, -1]) if height > 1 else ypos + height
         steps = []
         for k in range(rng.choice([1, 2, 2, 3])):
@@ -706,6 +805,17 @@ def gen_producer_cases(chk):
     return cases
 
 
+def gen_print_cases(chk):
+    rng = chk.rng
+    cases = []
+    for _ in range(2000 if chk.tier == "thorough" else 250):
+        frags = [[S(rng.choice(STYLES)), S(rand_text(rng, 6))] for _k in range(rng.randint(0, 4))]
+        if rng.random() < 0.3:
+            frags.insert(rng.randint(0, len(frags)), [S(rng.choice(ZWE_STYLES)), S(rng.choice(ZWE_POOL))])
+        cases.append([11, [], frags])
+    return cases
+
+
 def gen_flush_cases(chk):
     rng = chk.rng
     cases = []
@@ -733,6 +843,14 @@ def gen_e2e_specs(chk):
         t = "ab" + chr(c) + chr(followers[i % len(followers)]) + "z"
         specs.append({"buffer": t, "message": t + "> ", "display": t, "meta": t, "toolbar": t, "cols": 40, "rows": 10,
                       "family": "pair", "cp": c})
+    # states of the session that activate other fragment producers: multi-column menu, numeric argument (ShowArg),
+    # multiple cursors, incremental search (search toolbar + HighlightIncrementalSearchProcessor), rprompt
+    probe = ["\x00", "\x07", "\x1b[2J", "\x9b31m", "\x9d0;t\x9c", "\x7f", "\x85", "\xa0", "\u0301", "\udc9b", "\t", "\n"]
+    for mode in ("multi_column", "arg", "multicursor", "search", "rprompt"):
+        for i, pr_ in enumerate(probe):
+            t = "(a" + pr_ + "b)" + pr_
+            specs.append({"buffer": t, "message": "p" + pr_ + "> ", "display": "d" + pr_ + "e", "meta": "m" + pr_, "toolbar": "t" + pr_ + "z",
+                          "cols": 40, "rows": 10, "family": "mode", "mode": mode, "multiline": mode == "multicursor"})
     # byte level: a stdout with .buffer/.encoding; lone surrogates (undecodable file-name bytes), astral characters
     sur = [chr(c) for c in range(0xDC80, 0xDD00)]
     for enc in ENCODINGS:
@@ -761,6 +879,8 @@ def describe(c, a, m):
         return "Char(%r, %r): impl=%r model=%r" % (unS(c[2]), unS(c[3]), a, m)
     if c[0] == 2:
         return "Vt100_Output.write(%r): impl=%r model=%r" % (unS(c[1]), a, m)
+    if c[0] == 11:
+        return "print_formatted_text(%r): impl tokens=%s model tokens=%s" % (frags_of(c[2]), str(a)[:300], str(m)[:300])
     if c[0] == 8:
         return "flush_stdout encoding=%s data=%r: impl bytes=%r model bytes=%r" % (ENCODINGS[c[1]], unS(c[2]), a, m)
     if c[0] in (4, 5, 6, 7, 9, 10):
@@ -781,6 +901,8 @@ def tagger(c, a, m):
         return {"op": "Char", "family": "char-model"}
     if c[0] == 2:
         return {"op": "Vt100_Output.write", "family": "write-model"}
+    if c[0] == 11:
+        return {"op": "print_formatted_text", "family": "print-model"}
     if c[0] == 8:
         return {"op": "flush_stdout", "family": "wire-model"}
     if c[0] in (4, 5, 6, 7, 9, 10):
@@ -803,6 +925,8 @@ def run_case_impl(c, env):
         return impl_producer(c), None
     if c[0] == 8:
         return impl_flush(c), None
+    if c[0] == 11:
+        return impl_print_tokens(c, env)
     return impl_pipeline(c, env)
 
 
@@ -817,15 +941,15 @@ def main(tier):
                       {"kind": "structure", "site": p.split(":")[0] + ":" + p.split(" line ")[0].split(":")[-1]},
                       {"problem": p, "how": "gen/gen_t_c10.py scan(<repo>)"}, no_input=True)
     pr = chk.proofs("Props/C10.v", tables=TABLES)
-    okm, logm = build_model("c10", "Extract/ExC10.v", "run_C10w", tables=TABLES)
+    okm, logm = build_model("c10", "Extract/ExC10.v", "run_C10pr", tables=TABLES)
     if not okm:
         chk.violation("tie", "model does not build: " + logm[-400:], {"kind": "model-build"}, {"log": logm[-3000:]}, no_input=True)
         proof_gate(chk, pr)
         return chk.finish()
 
     env = StyleEnv()
-    cases = load_corpus(PROP) + gen_char_cases(chk) + gen_write_cases(chk) + gen_pipeline_cases(chk) + gen_producer_cases(chk) + gen_flush_cases(chk)
-    dist = {"char": 0, "write": 0, "copy_body+render": 0, "e2e_single": 0, "e2e_mixed": 0, "e2e_pair": 0, "e2e_wire": 0, "flush": 0, "print_formatted_text": 0, "e2e_dumb": 0, "producers": 0}
+    cases = load_corpus(PROP) + gen_char_cases(chk) + gen_write_cases(chk) + gen_pipeline_cases(chk) + gen_producer_cases(chk) + gen_flush_cases(chk) + gen_print_cases(chk)
+    dist = {"char": 0, "write": 0, "copy_body+render": 0, "e2e_single": 0, "e2e_mixed": 0, "e2e_pair": 0, "e2e_mode": 0, "e2e_readline": 0, "print_tokens": 0, "e2e_wire": 0, "flush": 0, "print_formatted_text": 0, "e2e_dumb": 0, "producers": 0}
     impl_results, oracle_bad = [], set()
     for i, c in enumerate(cases):
         try:
@@ -844,9 +968,27 @@ def main(tier):
                 if stp[4][2]:
                     styles.add(unS(stp[4][2][0]))
             c[2] = env.table(info["out"], styles)
+        if c[0] == 11 and info is not None:
+            c[1] = env.table(info["out"], info["styles"])
         impl_results.append(res)
         bad = None
-        if c[0] == 1:
+        if c[0] == 11:
+            dist["print_tokens"] += 1
+            if info is None:
+                bad = ("print_formatted_text raised or hung: %r" % (res,), "raise")
+            else:
+                marked = set(unS(t) for st, t in c[2] if "[ZeroWidthEscape]" in unS(st))
+                bad = oracle_log(info["log"], set(), "print_formatted_text", marked)
+                stripped = info["bytes"]
+                for kind, t, caller in info["log"]:
+                    if kind == 1:
+                        stripped = stripped.replace(t, "", 1)
+                if not bad and "\x1b" in stripped:
+                    bad = ("print_formatted_text(%r) sent ESC for printed text: %r" % (frags_of(c[2]), info["bytes"]), "write-esc")
+            nontrivial = any(27 in t for _s, t in c[2])
+            tags = {"op": "print_formatted_text", "family": bad[1] if bad else ""}
+            rep = {"case": c, "how": "harness/c10.py impl_print_tokens: renderer.print_formatted_text on a recording Vt100_Output"}
+        elif c[0] == 1:
             dist["char"] += 1
             if len(c[2]) == 1 and res and res[0] != "EXC":
                 bad = oracle_char(unS(c[2]), unS(c[3]), res)
@@ -917,7 +1059,7 @@ def main(tier):
         dist["print_formatted_text"] += 1
         chk.count_case([4, [[S(a), S(b)] for a, b in frags]], any("\x1b" in t for _s, t in frags))
         marked = set(t for s, t in frags if "[ZeroWidthEscape]" in s)
-        raws = [t for kind, t in log if kind == 1]
+        raws = [t for kind, t, _c in log if kind == 1]
         stripped = data
         for r in raws:
             stripped = stripped.replace(r, "", 1)
@@ -928,6 +1070,7 @@ def main(tier):
 
     # end to end: a real PromptSession
     e2e = E2E()
+    mode_reached = {}
     for spec in gen_e2e_specs(chk):
         try:
             res = with_watchdog(lambda: e2e.run(spec), 15)
@@ -939,6 +1082,15 @@ def main(tier):
                           {"spec": spec, "how": "harness/c10.py E2E.run(spec)"})
             continue
         dist["e2e_" + spec["family"]] += 1
+        if spec.get("mode"):
+            # the state must really be active, otherwise the spec exercises nothing
+            classes = set(w for _ch, st in res["cells"] for w in st.split())
+            want = {"multi_column": "MultiColumnCompletionMenuControl", "arg": "class:prompt.arg", "multicursor": "class:multiple-cursors",
+                    "search": "class:prompt.search", "rprompt": "class:rprompt"}[spec["mode"]]
+            reached = mode_reached.setdefault(spec["mode"], [0, 0])
+            reached[1] += 1
+            if want in classes or want in res.get("controls", ()):
+                reached[0] += 1
         chk.count_case([5, S(spec["buffer"]), S(spec["message"]), S(spec["display"]), S(spec["meta"]), S(spec["toolbar"])],
                        not control_free(spec["buffer"] + spec["message"] + spec["display"] + spec["meta"] + spec["toolbar"]))
         bad = oracle_e2e(res, "PromptSession(buffer/message/completion/toolbar)")
@@ -946,7 +1098,46 @@ def main(tier):
             chk.violation("oracle", bad[0] + " spec=%r" % (spec,), {"op": "e2e", "family": bad[1]},
                           {"spec": spec, "clause": bad[0], "observed_bytes": res["bytes"][:2000],
                            "how": "harness/c10.py E2E.run(spec): PromptSession on Vt100_Output(StringIO), renderer.render x3"})
+    for m_, (hit, tot) in sorted(mode_reached.items()):
+        # (a float such as the rprompt is hidden when it would cover content: not every spec shows it)
+        if hit * 2 < tot:
+            chk.violation("tie", "e2e mode %r was active in only %d of %d specs" % (m_, hit, tot),
+                          {"kind": "mode-not-reached", "mode": m_}, {"mode": m_}, no_input=True)
+    chk.coverage["e2e_modes_active"] = {m_: "%d/%d" % tuple(v) for m_, v in mode_reached.items()}
     chk.coverage["traces_validated_against_impl"] += dist["e2e_single"] + dist["e2e_mixed"]
+
+    # READLINE_LIKE completion listing: printed above the prompt with app.print_text, never a screen cell
+    rl_specs = [["d" + x + "e", "plain"] for x in ("\x07", "\x9b2J", "\x9d0;t\x9c", "\x00", "\x7f", "\x85", "\x1b[31m", "\x0e", "\x8e", "ok")] + \
+               [["a\x07\x9b2J\x1b[31m\x8e", "e\x9d0;t\x9c"], ["\u754c\u0301", "\xa0x"]]
+    for displays in rl_specs:
+        try:
+            r, data, log = with_watchdog(lambda: impl_readline_like(displays), 20)
+        except Hang:
+            chk.violation("oracle", "readline-like completion listing hung for %r" % (displays,), {"op": "e2e-readline", "family": "hang"},
+                          {"readline": displays})
+            continue
+        except Exception as e:  # noqa
+            chk.violation("oracle", "readline-like completion listing raised %r for %r" % (e, displays),
+                          {"op": "e2e-readline", "family": "raise:" + type(e).__name__}, {"readline": displays})
+            continue
+        dist["e2e_readline"] += 1
+        chk.count_case([12, [S(d) for d in displays]], True)
+        printed = [t for k, t, c in log if c == "renderer.py:print_formatted_text"]
+        if not printed:
+            chk.violation("tie", "the readline-like listing was not printed for %r (harness no longer reaches _display_completions_like_readline)" % (displays,),
+                          {"kind": "readline-not-reached"}, {"readline": displays}, no_input=True)
+            continue
+        bad = None
+        for t in printed:
+            if any(is_control(ord(ch)) and ch not in "\r\n" for ch in t):
+                bad = ("READLINE_LIKE completion listing: display texts %r are printed as %r - control characters of completion text reach the terminal "
+                       "(print_formatted_text -> Vt100_Output.write only replaces ESC); whole output %r" % (displays, t, data[-200:]), "stream-control")
+                break
+        bad = bad or oracle_stream(data, set(), "READLINE_LIKE completion listing %r" % (displays,))
+        if bad:
+            chk.violation("oracle", bad[0], {"op": "e2e-readline", "family": bad[1]},
+                          {"readline": displays, "observed": data, "clause": bad[0],
+                           "how": "harness/c10.py impl_readline_like(displays): PromptSession(complete_style=READLINE_LIKE), keys 'x' TAB Enter on a pipe input"})
 
     # dumb terminal prompt (TERM=dumb): message and typed characters go through Vt100_Output.write only
     dumb = [("p" + chr(c) + "> ", "x") for c in (0x00, 0x07, 0x08, 0x0d, 0x1b, 0x7f, 0x85, 0x9b, 0xa0)] + \
@@ -979,7 +1170,7 @@ def main(tier):
     k = 600 if chk.tier == "thorough" else 150
     idx = sorted(chk.rng.sample(range(len(cases)), min(k, len(cases))))
     pairs = [(cases[i], impl_results[i]) for i in idx]
-    bad, logs = vm_crosscheck(PROP, "run_C10w", "Model.C10_Screen Model.C10_Producers Model.C10_Wire", pairs, per_file=75)
+    bad, logs = vm_crosscheck(PROP, "run_C10pr", "Model.C10_Screen Model.C10_Producers Model.C10_Wire Model.C10_Print", pairs, per_file=75)
     chk.coverage["vm_compute_crosschecked"] = len(pairs)
     model_bad = set(i for i, (a, m) in enumerate(zip(impl_results, model_results)) if sx_norm(a) != m)
     vm_bad = set(idx[b] for b in bad if isinstance(b, int))
@@ -1008,7 +1199,7 @@ def main(tier):
         "screen cells are created only through Char/_CHAR_CACHE at the store sites classified by gen/gen_t_c10.py "
         "(AST scan, fail closed, on every run); Window.char, key-buffer data and scrollbar arrow symbols are application/"
         "key data, not displayed content",
-        "horizontal scroll, alignment, cursor/menu bookkeeping of _copy_body and set_title are outside the model; the dumb-terminal "
+        "cursor/menu bookkeeping and vertical scroll offsets of _copy_body, and set_title, are outside the model (horizontal scroll and alignment are modelled); the dumb-terminal "
         "prompt (PromptSession._dumb_prompt -> _dumb_terminal_text -> Vt100_Output.write) is outside the model: its write sites are "
         "checked by the AST scan and its output by the oracle",
         "'control character' = C0 (0x00-0x1F), DEL, C1 (0x80-0x9F)"]
@@ -1023,6 +1214,13 @@ def replay(data):
         bad = oracle_e2e(res, "PromptSession")
         print("spec=%r\nbytes=%r" % (rep["spec"], res["bytes"][:1500]))
         print("ORACLE FAILS: " + bad[0] if bad else "oracle ok")
+        return 1 if bad else 0
+    if "readline" in rep:
+        r, out, log = impl_readline_like(rep["readline"])
+        printed = [t for k, t, c in log if c == "renderer.py:print_formatted_text"]
+        bad = any(is_control(ord(ch)) and ch not in "\r\n" for t in printed for ch in t)
+        print("PromptSession(complete_style=READLINE_LIKE), displays %r, keys x TAB Enter -> result %r; printed listing %r" % (rep["readline"], r, printed))
+        print("ORACLE FAILS: control characters of completion text are printed raw" if bad else "oracle ok")
         return 1 if bad else 0
     if "dumb" in rep:
         r, out = impl_dumb_prompt(*rep["dumb"])
